@@ -11,8 +11,12 @@ subclass in this process); the Fitter itself — the step `replace_step` emits, 
 step `delete_range` records (lean/PM/Fitter.lean), with the `fill_before` / `find_wrapping` choices it depends on
 (lean/PM/FillOrder.lean).  Props/C11.lean proves `respects` for these models (`fitsTrivially_respects`, `deleteRange_respects`,
 `fit_range`, `fitter_respects`) instead of only monitoring it.
-Search: on the real code: no exception on the bundled-family schemas (totality — decided by search
-only), `check()` + the independent validator, and content preservation computed from to_json().
+Totality: theorems of the model for the termination of the loop of `Fitter.fit`, for deletions and for closed slices of leaf
+nodes (Props/C11.lean, last sections); their decidable guards / hypotheses are evaluated by the driver on every generated
+request (op `fitGuards`, harness/rangeplan.py): the finding class `partial_node_class` exactly, and relationally "guards true
+=> the real replace_step did not raise and did return"; the divergence example of Props/C11.lean is run on the real code.
+Search: on the real code: no exception on the bundled-family schemas, `check()` + the independent validator, and content
+preservation computed from to_json().
 """
 import random
 
@@ -172,7 +176,11 @@ def run(ctx):
         rule="a case is (schema, valid document, one replace-family operation with in-range pair-aligned positions and a "
              "schema-valid slice cut from another document / a valid node); bundled-family schemas (totality) and random "
              "well-founded schemas (validity, content preservation); non-trivial = a step was emitted",
-        level_note="totality ('never raises') is decided by search only: the fitting algorithm is modelled (lean/PM/Fitter.lean, exact tie) but its termination and assertion-freeness are not proven")
+        level_note="totality ('never raises'): the fitting algorithm is modelled (lean/PM/Fitter.lean, exact tie). Theorems of the model: "
+                   "the loop of Fitter.fit terminates and its fuel is exact (outOfFuel iff the loop reaches the one state it maps to itself); "
+                   "replace_step returns for every deletion and for every closed slice of leaf/text nodes on a valid document "
+                   "(delete_total, deleteRange_total, insertInline_total). For other slices absence of exceptions is decided by search, "
+                   "with the relational tie 'guards true => replace_step did not raise and did return' (op fitGuards)")
 
 
 if __name__ == "__main__":
